@@ -16,6 +16,9 @@ def dispatch (j : Json) : R Json := do
   | "slice_indices" => handleSliceIndices j
   | "pickle" => handlePickle j
   | "heap" => handleHeap j
+  | "start_end" => handleStartEnd j
+  | "high_low" => handleHighLow j
+  | "ellipse" => handleEllipse j
   | "ping" => pure (Json.mkObj [("pong", Json.bool true)])
   | _ => throw s!"unknown op {op}"
 
